@@ -425,6 +425,7 @@ def align_variable_names_with_convention(
         for refnode in _get_uses_of(node, ast_tree, source):
             renamings[refnode].add(substitute)
 
+    accessed_attributes = {node.attr for node in core.walk(ast_tree, ast.Attribute)}
     while funcdefs or classdefs:
         for partial_tree in classdefs.copy():
             classdefs.remove(partial_tree)
@@ -438,7 +439,12 @@ def align_variable_names_with_convention(
             for node in parsing.iter_funcdefs(partial_tree):
                 name = node.name
                 # Don't rename magic members, don't rename if there is inheritance.
-                if partial_tree.bases or parsing.is_magic_method(node):
+                # Uses through an attribute access (self.name, Class.name) would not be renamed.
+                if (
+                    partial_tree.bases
+                    or parsing.is_magic_method(node)
+                    or name in accessed_attributes
+                ):
                     renamings[node] = {name}
                 funcdefs.append(node)
                 substitute = style.rename_variable(
@@ -450,7 +456,12 @@ def align_variable_names_with_convention(
             for node in parsing.iter_assignments(partial_tree):
                 name = node.id
                 # Don't rename magic members, don't rename if there is inheritance.
-                if partial_tree.bases or (name.startswith("__") and name.endswith("__")):
+                # Uses through an attribute access (self.name, Class.name) would not be renamed.
+                if (
+                    partial_tree.bases
+                    or (name.startswith("__") and name.endswith("__"))
+                    or name in accessed_attributes
+                ):
                     renamings[node] = {name}
                 substitute = style.rename_variable(
                     name, private=parsing.is_private(name), static=False
